@@ -193,6 +193,16 @@ static void run_start(const reproc::options &o, const char *ctx)
 {
   const char *argv[] = { "prog", "x", nullptr };
   {
+    // a null argument vector given to start() is the C layer's to judge: it arrives as it is, and fork stays off
+    reproc::process p;
+    scripted = 1;
+    p.start(reproc::arguments((const char *const *) nullptr), o);
+    char c2[100];
+    snprintf(c2, sizeof c2, "%s/start(null argv)", ctx);
+    CHECK(!strcmp(rec.last, "start") && rec.argv_null, "arguments-passthrough", "%s: a null argv did not reach the C layer as NULL", c2);
+    CHECK(rec.options.fork == false, "options-fork", "%s: start() with a null argv reached the C layer with fork=%d", c2, rec.options.fork);
+  }
+  {
     reproc::process p;
     scripted = 1;
     p.start(argv, o);
